@@ -415,6 +415,33 @@ class SimLock(object):
         self.release()
 
 
+class SimRLock(SimLock):
+    """stands in for threading.RLock: the owner may acquire again"""
+
+    def __init__(self, sched, name="rlock"):
+        SimLock.__init__(self, sched, name)
+        self.depth = 0
+
+    def acquire(self, blocking=True, timeout=-1):
+        s = self.sched
+        if self._locked and self.owner is s.cur() and s.cur() is not None:
+            s.yield_point(("acq", self.name))
+            self.depth += 1
+            return True
+        ok = SimLock.acquire(self, blocking, timeout)
+        if ok:
+            self.depth = 1
+        return ok
+
+    def release(self):
+        if self.depth > 1:
+            self.depth -= 1
+            self.sched.yield_point(("rel", self.name))
+            return
+        self.depth = 0
+        SimLock.release(self)
+
+
 class _Ticket(object):
     __slots__ = ("notified",)
 
@@ -499,9 +526,15 @@ class SchedWaiter(object):
 
 
 def simulate_connection(conn, sched, name):
-    """replace the connection's three lock objects by scheduler-aware ones (same semantics)"""
-    conn._recvlock = SimLock(sched, name + ".recvlock")
-    conn._sendlock = SimLock(sched, name + ".sendlock")
+    """replace the connection's three lock objects by scheduler-aware ones with the semantics of the originals
+    (a re-entrant original gets a re-entrant stand-in, so changing the KIND of a lock is not masked by the simulation)"""
+    import threading
+    rlock_type = type(threading.RLock())
+
+    def like(orig, nm):
+        return SimRLock(sched, nm) if isinstance(orig, rlock_type) else SimLock(sched, nm)
+    conn._recvlock = like(conn._recvlock, name + ".recvlock")
+    conn._sendlock = like(conn._sendlock, name + ".sendlock")
     conn._recv_event = SimCondition(sched, name + ".recv_event")
     return conn
 
